@@ -15,7 +15,7 @@ ASSUMPTIONS = ["latency in (0, 5 ms]: replies are processed after the handler th
 
 
 def correspondence(ctx):
-    return corr22.run(ctx, 200 if ctx.quick else 8000, 30 if ctx.quick else 1000, 2, n_lossy=40 if ctx.quick else 1500)
+    return corr22.run(ctx, ctx.n(200, 8000), ctx.n(30, 1000), 2, n_lossy=ctx.n(40, 1500))
 
 
 def network_case(rng):
@@ -34,7 +34,7 @@ def network_case(rng):
             j = rng.choice([x for x in range(n) if x != i])
             plan.append((i, 'r', rng.choice([208, 0, 100]), sc.addrs[j], rand_payload(rng, max(61, size22(rng)) if rng.random() < 0.8 else rng.choice([61, 120, 121, 3000]))))
         for k in range(nb):
-            plan.append((i, 'b', rng.choice([254, 255, 240]), rng.randrange(256), rand_payload(rng, rng.choice([61, 120, 130, 400]))))
+            plan.append((i, 'b', rng.choice([254, 255, 240]), rng.randrange(256), rand_payload(rng, rng.choice([61, 120, 130, 400, 400, 4800, 9000] if rng.random() < 0.5 else [61, 120, 130]))))
     rng.shuffle(plan)
     upfront = rng.random() < 0.6
     cnt = {}
@@ -67,7 +67,7 @@ def network_case(rng):
 
 def oracle(ctx, full):
     rng = random.Random(ctx.seed * 7907 + 2)
-    n = 60 if (ctx.quick and not full) else 2500
+    n = ctx.n(60, 2500, full)
     findings, evals, distinct, samples = [], 0, set(), []
     for _ in range(n):
         bad, desc = network_case(random.Random(rng.getrandbits(48)))
